@@ -135,6 +135,7 @@ package cose
 //@   modifies signerInfo.SignatureAlgorithm, signerInfo.SignedAttributes
 //@   ensures [ok] result == nil ==> CoseSignedAttrsOf(signerInfo, protected)
 //@   ensures [frame] signerInfo.Signature == old(signerInfo.Signature) && signerInfo.CertificateChain == old(signerInfo.CertificateChain) && signerInfo.UnsignedAttributes == old(signerInfo.UnsignedAttributes)
+//@   ensures [no-expiry=>kept] (result == nil && !has(protected, box("io.cncf.notary.expiry"))) ==> signerInfo.SignedAttributes.Expiry == old(signerInfo.SignedAttributes.Expiry)
 
 //@ func (*envelope).payload(e)
 //@   requires e != nil && e.base != nil
@@ -150,6 +151,7 @@ package cose
 //@   ensures [err] err != nil ==> result == nil
 //@   ensures [ok=>headers] err == nil ==> result != nil && fresh(result) && CoseSignedAttrsOf(result, e.base.Headers.Protected)
 //@   ensures [ok=>signature] err == nil ==> result.Signature == e.base.Signature && len(result.Signature) > 0
+//@   ensures [ok=>no-expiry] (err == nil && !has(e.base.Headers.Protected, box("io.cncf.notary.expiry"))) ==> result.SignedAttributes.Expiry.IsZero()
 //@   ensures [ok=>chain] err == nil ==> typeof(e.base.Headers.Unprotected[box(gocose.HeaderLabelX5Chain)]) == type([]any) && CoseChainOf(result.CertificateChain, X5Chain(e.base)) && nx509.ChainInput(result.CertificateChain)
 //@   loop 0
 //@     invariant len(certChain) == it && (it > 0 ==> fresh(certChain))
@@ -160,9 +162,34 @@ package cose
 //@ stmt spec func CoseContentOf(c *signature.EnvelopeContent, m *gocose.Sign1Message) bool {
 //@     c.Payload.Content == m.Payload && typeof(m.Headers.Protected[box(gocose.HeaderLabelContentType)]) == type(string) && c.Payload.ContentType == unbox(m.Headers.Protected[box(gocose.HeaderLabelContentType)], type(string)) &&
 //@     c.SignerInfo.Signature == m.Signature && len(c.SignerInfo.Signature) > 0 && CoseSignedAttrsOf(fieldptr(c, SignerInfo), m.Headers.Protected) &&
-//@     typeof(m.Headers.Unprotected[box(gocose.HeaderLabelX5Chain)]) == type([]any) && CoseChainOf(c.SignerInfo.CertificateChain, X5Chain(m)) }
+//@     typeof(m.Headers.Unprotected[box(gocose.HeaderLabelX5Chain)]) == type([]any) && CoseChainOf(c.SignerInfo.CertificateChain, X5Chain(m)) &&
+//@     (!has(m.Headers.Protected, box("io.cncf.notary.expiry")) ==> c.SignerInfo.SignedAttributes.Expiry.IsZero()) }
+
+// stmt C08 (COSE round trip, part 1): what a successful format-level Sign leaves in the message, as one predicate
+//@ stmt spec func CoseSignedAs(req *signature.SignRequest, m *gocose.Sign1Message) bool {
+//@     m.Payload == req.Payload.Content && m.Headers.Protected[box(gocose.HeaderLabelContentType)] == box(req.Payload.ContentType) &&
+//@     (req.SigningScheme == signature.SigningSchemeX509 || req.SigningScheme == signature.SigningSchemeX509SigningAuthority) &&
+//@     m.Headers.Protected[box("io.cncf.notary.signingScheme")] == box(tostring(req.SigningScheme)) &&
+//@     RawTimeAt(m.Headers.Protected, box(signingSchemeTimeLabelMap[req.SigningScheme]), req.SigningTime) &&
+//@     (has(m.Headers.Protected, box("io.cncf.notary.expiry")) <==> !req.Expiry.IsZero()) && (!req.Expiry.IsZero() ==> RawTimeAt(m.Headers.Protected, box("io.cncf.notary.expiry"), req.Expiry)) &&
+//@     CoseAttrsPlaced(req, m.Headers.Protected) && typeof(m.Headers.Protected[box(gocose.HeaderLabelCritical)]) == type([]any) && CritPlaced(req, unbox(m.Headers.Protected[box(gocose.HeaderLabelCritical)], type([]any))) &&
+//@     CoseNothingElse(req, m.Headers.Protected) }
+// stmt C08 (COSE round trip, part 2): the content read back equals the request (times to whole seconds; the attributes
+// as mutual inclusion of two duplicate-free lists, each with key, value and criticality)
+//@ stmt spec func CoseReadsBack(req *signature.SignRequest, c *signature.EnvelopeContent) bool {
+//@     c.Payload.Content == req.Payload.Content && c.Payload.ContentType == req.Payload.ContentType &&
+//@     tostring(c.SignerInfo.SignedAttributes.SigningScheme) == tostring(req.SigningScheme) &&
+//@     c.SignerInfo.SignedAttributes.SigningTime == req.SigningTime.Truncate(time.Second) &&
+//@     (req.Expiry.IsZero() ==> c.SignerInfo.SignedAttributes.Expiry.IsZero()) && (!req.Expiry.IsZero() ==> c.SignerInfo.SignedAttributes.Expiry == req.Expiry.Truncate(time.Second)) &&
+//@     (forall k :: 0 <= k && k < len(req.ExtendedSignedAttributes) ==> (exists i :: 0 <= i && i < len(c.SignerInfo.SignedAttributes.ExtendedAttributes) &&
+//@          c.SignerInfo.SignedAttributes.ExtendedAttributes[i].Key == req.ExtendedSignedAttributes[k].Key && c.SignerInfo.SignedAttributes.ExtendedAttributes[i].Value == req.ExtendedSignedAttributes[k].Value &&
+//@          (c.SignerInfo.SignedAttributes.ExtendedAttributes[i].Critical <==> req.ExtendedSignedAttributes[k].Critical))) &&
+//@     (forall i :: 0 <= i && i < len(c.SignerInfo.SignedAttributes.ExtendedAttributes) ==> (exists k :: 0 <= k && k < len(req.ExtendedSignedAttributes) &&
+//@          c.SignerInfo.SignedAttributes.ExtendedAttributes[i].Key == req.ExtendedSignedAttributes[k].Key)) &&
+//@     (forall i, j :: 0 <= i && i < j && j < len(c.SignerInfo.SignedAttributes.ExtendedAttributes) ==> c.SignerInfo.SignedAttributes.ExtendedAttributes[i].Key != c.SignerInfo.SignedAttributes.ExtendedAttributes[j].Key) }
 
 //@ func (*envelope).Content(e)
+//@   lemma [C08-round-trip] forall req *signature.SignRequest, m *gocose.Sign1Message, c *signature.EnvelopeContent :: (req != nil && m != nil && c != nil && CoseSignedAs(req, m) && CoseContentOf(c, m)) ==> CoseReadsBack(req, c)
 //@   refines (signature.Envelope).Content except meaning
 //@   props C01 C07 C13
 //@   requires e != nil
@@ -201,6 +228,8 @@ package cose
 //@     (forall k :: 0 <= k && k < len(req.ExtendedSignedAttributes) && req.ExtendedSignedAttributes[k].Critical ==> (exists j :: 0 <= j && j < len(crit) && crit[j] == req.ExtendedSignedAttributes[k].Key)) &&
 //@     (forall j :: 0 <= j && j < len(crit) ==> crit[j] == box("io.cncf.notary.signingScheme") || (req.SigningScheme == signature.SigningSchemeX509SigningAuthority && crit[j] == box("io.cncf.notary.authenticSigningTime")) || (!req.Expiry.IsZero() && crit[j] == box("io.cncf.notary.expiry")) ||
 //@          (exists k :: 0 <= k && k < len(req.ExtendedSignedAttributes) && req.ExtendedSignedAttributes[k].Critical && req.ExtendedSignedAttributes[k].Key == crit[j])) }
+//@ stmt spec func CoseNothingElse(req *signature.SignRequest, p gocose.ProtectedHeader) bool {
+//@     forall s any :: has(p, s) ==> IsSystemLabel(s) || (exists k :: 0 <= k && k < len(req.ExtendedSignedAttributes) && req.ExtendedSignedAttributes[k].Key == s) }
 //@ spec func RawTimeAt(p gocose.ProtectedHeader, k any, t time.Time) bool { has(p, k) && typeof(p[k]) == type(cbor.RawMessage) && unbox(p[k], type(cbor.RawMessage)) == CBOREncTime(t) }
 //@ func generateProtectedHeaders(req, protected)
 //@   requires req != nil && protected != nil
@@ -211,6 +240,7 @@ package cose
 //@   ensures [ok=>expiry] result == nil ==> (has(protected, box("io.cncf.notary.expiry")) <==> !req.Expiry.IsZero()) && (!req.Expiry.IsZero() ==> RawTimeAt(protected, box("io.cncf.notary.expiry"), req.Expiry))
 //@   ensures [ok=>attrs] result == nil ==> CoseAttrsPlaced(req, protected)
 //@   ensures [ok=>crit] result == nil ==> has(protected, box(gocose.HeaderLabelCritical)) && typeof(protected[box(gocose.HeaderLabelCritical)]) == type([]any) && CritPlaced(req, unbox(protected[box(gocose.HeaderLabelCritical)], type([]any)))
+//@   ensures [ok=>nothing-else] result == nil ==> CoseNothingElse(req, protected)
 //@   ensures [typed] result != nil ==> typeof(result) == type(*signature.InvalidSignRequestError)
 //@   ensures [alg-kept] result == nil ==> (has(protected, box(gocose.HeaderLabelAlgorithm)) <==> old(has(protected, box(gocose.HeaderLabelAlgorithm)))) && protected[box(gocose.HeaderLabelAlgorithm)] == old(protected[box(gocose.HeaderLabelAlgorithm)])
 //@   loop 0
@@ -299,6 +329,7 @@ package cose
 //@   ensures [ok=>placed] err == nil ==> e.base.Payload == req.Payload.Content && e.base.Headers.Protected[box(gocose.HeaderLabelContentType)] == box(req.Payload.ContentType)
 //@   ensures [ok=>scheme-times] err == nil ==> (req.SigningScheme == signature.SigningSchemeX509 || req.SigningScheme == signature.SigningSchemeX509SigningAuthority) && e.base.Headers.Protected[box("io.cncf.notary.signingScheme")] == box(tostring(req.SigningScheme)) && RawTimeAt(e.base.Headers.Protected, box(signingSchemeTimeLabelMap[req.SigningScheme]), req.SigningTime) && (has(e.base.Headers.Protected, box("io.cncf.notary.expiry")) <==> !req.Expiry.IsZero()) && (!req.Expiry.IsZero() ==> RawTimeAt(e.base.Headers.Protected, box("io.cncf.notary.expiry"), req.Expiry))
 //@   ensures [ok=>attributes] err == nil ==> CoseAttrsPlaced(req, e.base.Headers.Protected) && typeof(e.base.Headers.Protected[box(gocose.HeaderLabelCritical)]) == type([]any) && CritPlaced(req, unbox(e.base.Headers.Protected[box(gocose.HeaderLabelCritical)], type([]any)))
+//@   ensures [ok=>signed-as] err == nil ==> CoseSignedAs(req, e.base)
 //@   ensures [ok=>algorithm] err == nil ==> req.Signer.KeySpec().err == nil && has(e.base.Headers.Protected, box(gocose.HeaderLabelAlgorithm))
 //@   ensures [ok=>agent] err == nil && req.SigningAgent != "" ==> e.base.Headers.Unprotected[box("io.cncf.notary.signingAgent")] == box(req.SigningAgent)
 //@   ensures [ok=>no-agent] err == nil && req.SigningAgent == "" ==> !has(e.base.Headers.Unprotected, box("io.cncf.notary.signingAgent"))
